@@ -89,15 +89,19 @@ theorem both_child_kinds_rejected (m : List (String × Data)) (name : String) (a
     (hat : a.truthy = true) (hbt : b.truthy = true)
     (he : getStripped (.map m) "on entry" ≠ .error ()) (hx : getStripped (.map m) "on exit" ≠ .error ()) :
     importState (.map m) = .error .statechart := by
-  unfold importState
-  simp only [hn]
-  cases h1 : getStripped (.map m) "on entry" with
-  | error e => exact absurd h1 he
-  | ok v1 =>
+  have e1 : ∃ v, stripField (.map m) "on entry" = .ok v := by
+    unfold stripField
+    cases h1 : getStripped (.map m) "on entry" with
+    | error e => exact absurd h1 he
+    | ok v => exact ⟨v, rfl⟩
+  have e2 : ∃ v, stripField (.map m) "on exit" = .ok v := by
+    unfold stripField
     cases h2 : getStripped (.map m) "on exit" with
     | error e => exact absurd h2 hx
-    | ok v2 =>
-      simp [ha, hb, hat, hbt, bind, Except.bind, throw, throwThe, MonadExceptOf.throw]
+    | ok v => exact ⟨v, rfl⟩
+  obtain ⟨v1, e1⟩ := e1
+  obtain ⟨v2, e2⟩ := e2
+  simp [importState, hn, e1, e2, truthyAt, ha, hb, hat, hbt]
 
 /-- whatever `_import_state_from_dict` raises surfaces as `StatechartError` -/
 theorem state_errors_are_statechart_errors (f : Nat) (d : Data) (par : Option Name)
